@@ -1634,7 +1634,7 @@ impl Node {
         arc_self: &Arc<Node>,
     ) -> Result<(ChannelId, Option<ChannelSlot>), Status> {
         let channel_id = self.keys_manager.get_channel_id();
-        self.find_or_create_channel(channel_id, arc_self)
+        self.find_or_create_channel(channel_id, arc_self, None)
     }
 
     /// Create a new channel from a seed identifier (aka a dbid) and
@@ -1658,16 +1658,10 @@ impl Node {
         peer_id: &[u8; 33], // TODO figure out a more specific type
         arc_self: &Arc<Node>,
     ) -> Result<(ChannelId, Option<ChannelSlot>), Status> {
-        if self.get_state().dbid_high_water_mark >= dbid {
-            return Err(policy_error(
-                "policy-channel-original-channel-id-reuse",
-                format!("original channel id {} is potentially being reused", dbid),
-            )
-            .into());
-        }
-
         let channel_id = ChannelId::new_from_peer_id_and_oid(peer_id, dbid);
-        self.find_or_create_channel(channel_id, arc_self)
+        // the high-water mark is checked under the channel map lock (see find_or_create_channel),
+        // so that a concurrent forget_channel cannot raise it between the check and the creation
+        self.find_or_create_channel(channel_id, arc_self, Some(dbid))
     }
 
     /// Create a new channel with a specified channel id.
@@ -1678,17 +1672,28 @@ impl Node {
         channel_id: ChannelId,
         arc_self: &Arc<Node>,
     ) -> Result<(ChannelId, Option<ChannelSlot>), Status> {
-        self.find_or_create_channel(channel_id, arc_self)
+        self.find_or_create_channel(channel_id, arc_self, None)
     }
 
     fn find_or_create_channel(
         &self,
         channel_id: ChannelId,
         arc_self: &Arc<Node>,
+        monotonic_dbid: Option<u64>,
     ) -> Result<(ChannelId, Option<ChannelSlot>), Status> {
         // lock order: tracker before channels (as in setup_channel and get_heartbeat)
         let blockheight = arc_self.get_tracker().height();
         let mut channels = self.get_channels();
+        if let Some(dbid) = monotonic_dbid {
+            // forget_channel raises the mark while it holds the channel map
+            if self.get_state().dbid_high_water_mark >= dbid {
+                return Err(policy_error(
+                    "policy-channel-original-channel-id-reuse",
+                    format!("original channel id {} is potentially being reused", dbid),
+                )
+                .into());
+            }
+        }
         let policy = self.policy();
         if channels.len() >= policy.max_channels() {
             // FIXME(3) we don't garbage collect channels
